@@ -433,7 +433,12 @@ func (m *Map[K, V]) decodeInto(target any) error {
 		warns = append(warns, w.Wrapf("while unmarshaling the remaining input into an inline field of type %T", inlinePtr.Interface()))
 		return warning.Wrap(warns...)
 	}
-	return err
+	if err != nil {
+		return err
+	}
+	// The inline field was fine, but don't forget the warnings collected
+	// while unmarshaling the other fields.
+	return warning.Wrap(warns...)
 }
 
 // Compile-time check that *Map[string,any] is an Unmarshaler
